@@ -57,8 +57,65 @@ pub enum RunEnd {
     Failed { step: usize, complaints: Vec<Complaint> },
 }
 
+/// Differential run for caches *without* an event listener (the ledger oracle follows the victims the
+/// listener reports, so it cannot judge them): the same sequence is executed on a cache with a listener
+/// (judged by the ordinary oracle in the jobs that have one) and on one without; after every step both
+/// must have offered the same multiset of (key, value, channel) to the pipe, and nothing may panic.
+fn run_diff(job: &SeqJob, ops: &[Op], res: &mut ShardResult) -> (RunEnd, Option<Driver>) {
+    let mut cfg_ref = job.cfg.clone();
+    cfg_ref.no_listener = false;
+    let mut dr = Driver::new(cfg_ref, job.universe.clone());
+    let mut dn = Driver::new(job.cfg.clone(), job.universe.clone());
+    let all: Vec<Op> = job.prologue.iter().chain(ops.iter()).copied().collect();
+    let compare = |dr: &Driver, dn: &Driver, what: &str| -> Vec<Complaint> {
+        let mut a = dr.rec.pipe_log.lock().unwrap().clone();
+        let mut b = dn.rec.pipe_log.lock().unwrap().clone();
+        a.sort();
+        b.sort();
+        if a == b {
+            return vec![];
+        }
+        let missing = a.iter().any(|x| !b.contains(x)) || b.len() < a.len();
+        vec![(
+            if missing { "L.pipe-missing" } else { "L.pipe-spurious" },
+            format!("{what}: a cache without an event listener offered {b:?} (key, value, via flush) to the pipe; the same sequence on a cache with a listener offered {a:?}"),
+        )]
+    };
+    for (i, op) in all.iter().enumerate() {
+        if !dr.applicable(op) || !dn.applicable(op) {
+            return (RunEnd::Pruned, None);
+        }
+        if !dr.step(op).is_empty() {
+            // the reference run itself is judged (and reported) by the jobs with a listener
+            return (RunEnd::Pruned, None);
+        }
+        let mut c: Vec<Complaint> = dn.step(op).into_iter().filter(|c| c.0.starts_with("X.") || c.0.starts_with("K.")).collect();
+        res.add("steps", 2);
+        c.extend(compare(&dr, &dn, &op.text()));
+        if !c.is_empty() {
+            return (RunEnd::Failed { step: i, complaints: c }, Some(dn));
+        }
+    }
+    res.add("evictions", dr.n_evictions);
+    res.add("memory_hits", dr.n_hits);
+    res.add("differential_runs", 1);
+    res.fp(vcore::fingerprint(&(dn.rec.pipe_log.lock().unwrap().clone(), dr.observation())));
+    if job.epilogue {
+        let _ = dr.teardown();
+        let mut c: Vec<Complaint> = dn.teardown();
+        c.extend(compare(&dr, &dn, "epilogue (handles dropped, cache dropped)"));
+        if !c.is_empty() {
+            return (RunEnd::Failed { step: usize::MAX, complaints: c }, Some(dn));
+        }
+    }
+    (RunEnd::Ok, None)
+}
+
 /// Run prologue + ops on a fresh cache.
 pub fn run_once(job: &SeqJob, ops: &[Op], res: &mut ShardResult) -> (RunEnd, Option<Driver>) {
+    if job.cfg.no_listener && job.cfg.pipe && job.property == "C13" {
+        return run_diff(job, ops, res);
+    }
     let mut d = Driver::new(job.cfg.clone(), job.universe.clone());
     let all: Vec<Op> = job.prologue.iter().chain(ops.iter()).copied().collect();
     for (i, op) in all.iter().enumerate() {
@@ -130,7 +187,8 @@ fn finish_run(job: &SeqJob, ops: &[Op], end: RunEnd, d: Option<Driver>, res: &mu
         }
         RunEnd::Ok => {
             res.add("executions", 1);
-            let mut d = d.unwrap();
+            // differential runs have done their own epilogue and fingerprint
+            let Some(mut d) = d else { return true };
             res.fp(vcore::fingerprint(&d.observation()));
             if job.epilogue {
                 let c = d.finish();
